@@ -4,7 +4,8 @@ from framework import Case
 import c08
 
 PROP = 'C15'
-TRANSLATORS = ['ugraph']
+TRANSLATORS = ['ugraph', 'ugraphfns']     # Props/C15Gen.lean: the statements on the generated shortest_path / mutators
+EXTRA_THEOREM_MODULES = ['DcVerif.Props.C15Gen']
 RULE = ('weighted digraphs reached by build/removal histories in the C08 op language (all constructors, initial capacities '
         '0-4, index reuse after removals, clear-and-rebuild): random sparse/dense graphs, rings and rings with chords (cycles), '
         'layered grids with equal weights (many ties), zero-weight edges and zero-weight cycles, self-loops, unreachable parts, '
